@@ -79,7 +79,7 @@ def catalogue(tier):
     out = []
     from nanite import model
     keys = [k for k in ["hertz_para", "hertz_cone", "hertz_pyr3s",
-                        "sneddon_spher_approx", "hertz_layer_clifford"]
+                        "sneddon_spher_approx", "power_layer_clifford_2009"]
             if k in model.models_available]
     others = [k for k in sorted(model.models_available) if k not in keys]
     nrep = 1 if tier == "quick" else 4
